@@ -125,7 +125,13 @@ func (a *Activation) callStatic(fn *ssa.Function, args []Val, bindings []Val, st
 					for ri, rv := range res {
 						ra.lets[fmt.Sprintf("callresult_%d", ri)] = rv
 					}
+					for ai, av := range args {
+						ra.lets[fmt.Sprintf("callarg_%d", ai)] = av
+					}
 					a.ghostAssign(out, c)
+					for ai := range args {
+						delete(ra.lets, fmt.Sprintf("callarg_%d", ai))
+					}
 					delete(ra.lets, "callresult")
 					for ri := range res {
 						delete(ra.lets, fmt.Sprintf("callresult_%d", ri))
